@@ -18,6 +18,9 @@ pub struct X {
     /// timers that force-send with instant handlers: a tick can only be handled at the instant
     /// it was sent, and sending needs an upgrade - so none may be handled later than the last drop
     instant_ticks: bool,
+    /// no handler of the scene takes virtual time and the clock only advances when nothing is
+    /// runnable: draining and stopping after the last drop happen at the instant of that drop
+    prompt: bool,
 }
 
 fn is_strong(h: &H) -> bool {
@@ -137,6 +140,19 @@ fn oracle(s: &ProgScene<X>, t: &Trace) -> Vec<Violation> {
             });
         }
     }
+    // (B'') ... and the end does not wait for anything that is merely pending (a timer that is
+    // not due yet): with instant handlers the actor stops at the virtual instant of the last drop
+    if let (true, Some(ld), false, Some(se)) = (s.extra.prompt, last_drop, stop_requested, stopped_enter) {
+        crate::check::oblige("last-drop-terminates");
+        let (drop_time, stop_time) = (t.log[ld].time, t.log[se].time);
+        if stop_time > drop_time {
+            out.push(Violation {
+                clause: "last-drop-terminates",
+                key: format!("C05/end-delayed-after-last-strong-drop/{tk}/mailbox={mbn}"),
+                detail: format!("the last strong handle was dropped at t={drop_time} and every handler is instant, but stopped() only began at t={stop_time}: something kept the actor alive in between"),
+            });
+        }
+    }
     // (C) upgrades
     let mut first_none_after_drop: Option<usize> = None;
     for o in &an.ops {
@@ -213,7 +229,31 @@ fn scripts() -> Vec<(&'static str, Vec<HInit>, Vec<Op>)> {
     ]
 }
 
+thread_local! {
+    /// the observer's weak handles are, from t=4 on, the ones the actor's own context made
+    static CTX_MADE: std::cell::Cell<bool> = const { std::cell::Cell::new(false) };
+}
+
 fn weak_observer() -> ClientSpec {
+    if CTX_MADE.with(|c| c.get()) {
+        // adopts the context-made handles as soon as the actor has shared them (in some
+        // schedules while the scripts are still at work), probes through them, and again later
+        return ClientSpec {
+            init: vec![HInit::WAddr, HInit::WSnd, HInit::WCal],
+            ops: vec![
+                Op::AdoptCtxWeak,
+                Op::UpgradeProbe(H::WAddr(0)),
+                Op::UpgradeProbe(H::WSnd(0)),
+                Op::UpgradeProbe(H::WCal(0)),
+                Op::Sleep(4),
+                Op::AdoptCtxWeak,
+                Op::UpgradeProbe(H::WAddr(0)),
+                Op::UpgradeProbe(H::WSnd(0)),
+                Op::UpgradeProbe(H::WCal(0)),
+                Op::Send(H::WSnd(0), 99),
+            ],
+        };
+    }
     ClientSpec {
         init: vec![HInit::WAddr, HInit::WSnd, HInit::WCal],
         ops: vec![
@@ -235,6 +275,8 @@ enum Extras {
     TwoIntervals,
     IntervalWithSlow,
     DelayedExec,
+    /// a one-shot delayed_send that is still pending when everybody lets go (due at t=6)
+    DelayedSend,
     Subscribed,
     /// subscribed, and one publication has already been delivered to it
     SubscribedPublished,
@@ -285,6 +327,9 @@ fn make_case_s(picks: &[usize], extras: Extras, mailbox: Mailbox, early: u32, bo
     }
     clients.push(weak_observer());
     let mut role = RoleCfg::default();
+    if CTX_MADE.with(|c| c.get()) {
+        role.started_actions.push(Action::ShareCtxHandles);
+    }
     match extras {
         Extras::None => {}
         Extras::Interval => role.started_actions.push(Action::Interval { timer: 1, period: 1 }),
@@ -297,6 +342,7 @@ fn make_case_s(picks: &[usize], extras: Extras, mailbox: Mailbox, early: u32, bo
             role.tick_work = Work { sleep: 2, ..Work::default() };
         }
         Extras::DelayedExec => role.started_actions.push(Action::DelayedExec { timer: 1, delay: 3 }),
+        Extras::DelayedSend => role.started_actions.push(Action::DelayedSend { timer: 1, delay: 6 }),
         Extras::Subscribed => role.started_actions.push(Action::Subscribe { topic: 1 }),
         Extras::SubscribedPublished => {
             role.started_actions.push(Action::Subscribe { topic: 1 });
@@ -306,7 +352,8 @@ fn make_case_s(picks: &[usize], extras: Extras, mailbox: Mailbox, early: u32, bo
     // only a timer parked in `try_send` for mailbox space and the broker's fan-out hold a strong
     // temporary across steps; `interval` upgrades, force-sends and lets go within one poll
     let temporaries = matches!(extras, Extras::IntervalWithSlow | Extras::Subscribed | Extras::SubscribedPublished);
-    let instant_ticks = matches!(extras, Extras::Interval | Extras::TwoIntervals);
+    let instant_ticks = matches!(extras, Extras::Interval | Extras::TwoIntervals | Extras::DelayedSend);
+    let prompt = early == 0 && !matches!(extras, Extras::IntervalWithSlow);
     let desc = format!("lifetime mailbox={} extras={:?} early={} stream={} clients={}", mailbox.name(), extras, early, stream, names.join(" | "));
     let ps = ProgScene { variant: crate::progscene::current_variant(),
         spawn: SpawnCfg::plain(mailbox),
@@ -317,7 +364,7 @@ fn make_case_s(picks: &[usize], extras: Extras, mailbox: Mailbox, early: u32, bo
         },
         roles: vec![role],
         clients,
-        extra: X { temporaries, instant_ticks },
+        extra: X { temporaries, instant_ticks, prompt },
         oracle,
     };
     Case {
@@ -332,7 +379,7 @@ fn base_cases(tier: Tier) -> Vec<Case> {
     let mut v = vec![];
     let n = scripts().len();
     let mbs: &[Mailbox] = if tier == Tier::Quick { &[Mailbox::U, Mailbox::B(0)] } else { &[Mailbox::U, Mailbox::B(0), Mailbox::B(1)] };
-    let extras = [Extras::None, Extras::Interval, Extras::TwoIntervals, Extras::IntervalWithSlow, Extras::DelayedExec, Extras::Subscribed, Extras::SubscribedPublished];
+    let extras = [Extras::None, Extras::Interval, Extras::TwoIntervals, Extras::IntervalWithSlow, Extras::DelayedExec, Extras::DelayedSend, Extras::Subscribed, Extras::SubscribedPublished];
     for &mb in mbs {
         for &ex in &extras {
             // the owner script can appear at most once
@@ -341,7 +388,7 @@ fn base_cases(tier: Tier) -> Vec<Case> {
             for i in 0..n {
                 // the restart scripts re-register every timer; they are combined with the plain
                 // and the delayed_exec scenes only
-                if restarting(i) && !matches!(ex, Extras::None | Extras::DelayedExec) {
+                if restarting(i) && !matches!(ex, Extras::None | Extras::DelayedExec | Extras::DelayedSend) {
                     continue;
                 }
                 v.push(make_case(&[i], ex, mb, 0, None));
@@ -349,7 +396,7 @@ fn base_cases(tier: Tier) -> Vec<Case> {
                     if owner(i) && owner(j) {
                         continue;
                     }
-                    if restarting(j) && !matches!(ex, Extras::None | Extras::DelayedExec) {
+                    if restarting(j) && !matches!(ex, Extras::None | Extras::DelayedExec | Extras::DelayedSend) {
                         continue;
                     }
                     let big = ex != Extras::None;
@@ -408,6 +455,14 @@ fn cases(tier: Tier) -> Vec<Case> {
     let sized = move |d: &str| plain(d) && (tier == Tier::Thorough || !d.contains(" | "));
     let on_stream = move |d: &str| sized(d) && !d.contains("restart") && !d.contains("extras=None");
     let mut v = crate::check::widen(&|| base_cases(tier), &sized, &sized, Some(&on_stream));
+    // weak handles minted by the actor's own context (weak_address / weak_sender / weak_caller)
+    // and handed to another task are weak handles like any other: the observer switches to them
+    CTX_MADE.with(|c| c.set(true));
+    v.extend(base_cases(tier).into_iter().filter(|c| sized(&c.desc)).map(|mut c| {
+        c.desc = c.desc.replacen("lifetime", "lifetime [the observer's weak handles are made by the actor's context]", 1);
+        c
+    }));
+    CTX_MADE.with(|c| c.set(false));
     // "a parent's child list" is a strong holder like any other: a child held by nothing else
     // lives through a restart of its parent (the tree scenes of C16, reporting under C05)
     {
